@@ -5,8 +5,16 @@ CFG = {
         "model_targets": ["Query/PlanOk.vo"],
         "proof_targets": ["Props/C02.vo"],
         "harness": [{"bin": "h_plans", "prefix": "cases_plans"}],
-        "trusted": [],
-        "theorem_backed": "",
-        "link_only": "",
-        "assumptions": [],
+        "trusted": [
+            "Tier A' (per-instance certification): the query planner (free_join/plan.rs, ~1650 lines) is NOT modelled; hook H1 (cfg egglog_verif, core-relations/src/verif_hook.rs) dumps every compiled Plan and the harness writes each single-bag plan with the query it built as a Coq term; the kernel decides plan_ok on each (cases_plans_*.v); c02_plan_sound then covers all databases and all run-time stage orders for that plan",
+            "hand-written stage machine coq/Query/Stages.v for JoinStage::Intersect / FusedIntersect as run by free_join/execute.rs (trie-join state = binding + remaining rows per atom, header pre-filters, dynamic order oracle); tied to the executor by the h_plans correspondence: on a sample of cases the kernel evaluates the spec matcher and the stage machine under 4 order oracles on the dumped plan and database and compares both with the rows the real engine produced",
+            "the H1 dump (plan -> JSON) and the harness's JSON -> Gallina printing are trusted to transcribe the Plan faithfully (atoms' tables, header constraints, scans, bind lists, key positions)",
+        ],
+        "theorem_backed": "for every conjunctive query q (atoms over relations with variable / constant arguments, repeated variables, per-atom column constraints Eq/EqConst/Lt/Gt/Le/Ge - the subsume-column constant and semi-naive timestamp bounds are such constraints) and every single-bag plan p made of Intersect and FusedIntersect stages with headers: if plan_ok q p = true then for EVERY database and EVERY run-time order oracle (any permutation, chosen per branch) the stage machine emits exactly the nested-loop matches of q, as sets of substitutions restricted to the variables the plan binds (which include all variables the actions read); hence any two accepted plans of one query (different strategies / orders) fire identically. The nested-loop matcher is characterised by witness rows (sound and complete). plan_ok was evaluated by the kernel on every single-bag plan the real planner produced in this run (Gj, MinCover, PureSize; see plans_certified_by_plan_ok)",
+        "link_only": "Decomposed (multi-bag, FusedIntersectMat / materialised messages) plans are NOT certified: they are only compared end-to-end (engine output vs nested-loop matcher) and counted (plans_uncertified_link_only, uncertified_breakdown, bags_hist). Also link-only: the lowering from egglog rules to core-relations queries (canonicalize, remove_dup_vars; exercised through the egglog-text differential test incl. primitive guards and :no-decomp), index implementations (cached / sparse / dynamic indexes, trie-node sharing), leaf-scan factorisation (binding_sets), morsel parallelism, the vectorised action execution, re-instantiation of cached plans with timestamp constraints (C03)",
+        "assumptions": [
+            "values and columns are unbounded nat; rows have the arity of their table (columns out of range read as 0 in both the specification and the stage machine)",
+            "a table is a set of rows fixed for the duration of the run (the engine freezes tables while rules run); stale rows are not modelled",
+            "the executor's leaf-scan optimisation (a FusedIntersect whose atom no later stage touches yields its rows as a factorised set) is modelled as plain iteration",
+        ],
     }
